@@ -36,7 +36,7 @@ abbrev M (a0 : Array α) := StateM (PArr a0)
 def swp (i j : Nat) : M a0 Unit :=
   modify fun a => ⟨a.val.swapIfInBounds i j, (swapIfInBounds_perm a.val i j).trans a.property⟩
 
-def rd (i : Nat) : M a0 α := do return (← get).val[i]!
+def rd (i : Nat) : M a0 α := do return (← get).val.getD i default
 
 variable (lt : α → α → Bool)
 
